@@ -16,7 +16,8 @@ Local Open Scope N_scope.
 Record cm := { c_nh : N; c_nb : N; c_seed_hash : N; c_total : N; c_cells : list N }.
 
 Definition cm_empty (s : cm) : bool := c_total s =? 0.          (* is_empty(): total weight == 0 *)
-Definition ncells (nh nb : N) : N := w32 (nh * nb).               (* uint32 arithmetic of the constructor *)
+Definition ncells (nh nb : N) : N := nh * nb.   (* 64-bit product: the constructor as repaired by fixes/11_count_min_product_overflow.patch;
+                                                   the uint32 product of the unrepaired constructor is kept in Regression_cmcodec.v *)
 
 Definition enc (s : cm) : list N :=
   [2; 1; 18; (if cm_empty s then 1 else 0); 0; 0; 0; 0] ++
@@ -32,7 +33,7 @@ Definition header_ok (pre ver fam flags : N) : bool :=
   let sw := w8 ((if N.testbit flags 0 then 1 else 0) + 2 * ver + 4 * fam + 32 * N.land pre 63) in
   (sw =? 138) || (sw =? 139).
 
-(* the constructor refuses fewer than 3 buckets and 2^30 or more cells (uint32 product) *)
+(* the constructor refuses fewer than 3 buckets and 2^30 or more cells *)
 Definition ctor_ok (nh nb : N) : bool := (3 <=? nb) && (ncells nh nb <? 1073741824).
 
 Definition zeros (n : N) : list N := repeat 0 (N.to_nat n).
